@@ -842,7 +842,19 @@ class BuiltinsMixin:
             ascii_ = self.all_codes_below(s.e, 128)
             self.run.assume(z3.And(z3.Length(r) >= z3.Length(s.e), z3.Length(r) <= 4 * z3.Length(s.e), z3.Implies(ascii_, r == s.e)))
             return SStr(r, "bytes")
-        raise Unsupported(f"encode({encoding!r})")
+        # any other codec: an uninterpreted function per codec name; may raise UnicodeEncodeError;
+        # single-byte code pages keep the length
+        name = enc if isinstance(enc, str) else "codec"
+        ok = z3.Bool(self.run.fresh(f"encodable[{name}]"))
+        self.run.assume(z3.Implies(self.all_codes_below(s.e, 128), ok))
+        self.may_raise("UnicodeEncodeError", ok)
+        f = z3.Function(f"encode[{name}]", z3.StringSort(), z3.StringSort())
+        r = f(s.e)
+        if name.startswith("cp") or name.startswith("iso") or name in ("ascii",):
+            self.run.assume(z3.Length(r) == z3.Length(s.e))
+        else:
+            self.run.assume(z3.And(z3.Length(r) >= z3.Length(s.e), z3.Length(r) <= 4 * z3.Length(s.e)))
+        return SStr(r, "bytes")
 
     def m_text_decode(self, s, encoding="utf-8", errors="strict"):
         if isinstance(s, bytes):
